@@ -1,5 +1,6 @@
 import Qats.Lemmas.DistMain
 import Qats.Lemmas.DistGumbel
+import Qats.Lemmas.DistWeibullCentral
 /-!
 # C15 — distribution objects are internally coherent
 
@@ -51,6 +52,37 @@ theorem wb_moments_algebra (loc scale shape : ℝ) (hs : 0 < scale) (hc : 0 < sh
     wb_skew shape = (μ 3 - 3 * μ 1 * μ 2 + 2 * μ 1 ^ 3) / (μ 2 - μ 1 ^ 2) ^ (3 / 2 : ℝ) ∧
     wb_kurt shape = (μ 4 - 4 * μ 1 * μ 3 + 6 * μ 1 ^ 2 * μ 2 - 3 * μ 1 ^ 4) / (μ 2 - μ 1 ^ 2) ^ 2 :=
   wb_moments_algebra' loc scale shape hs hc μ hμ
+
+/-- The Weibull density is integrable on its support `(loc, ∞)` and has total mass 1. -/
+theorem wb_density_mass (loc scale shape : ℝ) (hs : 0 < scale) (hc : 0 < shape) :
+    MeasureTheory.IntegrableOn (fun x => wb_pdf loc scale shape x) (Set.Ioi loc) ∧
+      ∫ x in Set.Ioi loc, wb_pdf loc scale shape x = 1 :=
+  wb_density_mass' loc scale shape hs hc
+
+/-- The reported mean is the mean of the density. -/
+theorem wb_mean_is_density_mean (loc scale shape : ℝ) (hs : 0 < scale) (hc : 0 < shape) :
+    MeasureTheory.IntegrableOn (fun x => x * wb_pdf loc scale shape x) (Set.Ioi loc) ∧
+      ∫ x in Set.Ioi loc, x * wb_pdf loc scale shape x = wb_mean loc scale shape :=
+  wb_mean_is_density_mean' loc scale shape hs hc
+
+/-- The reported standard deviation is positive and its square is the variance of the density (second moment about the
+reported mean); in particular `Γ(1+2/c) − Γ(1+1/c)² > 0`. -/
+theorem wb_std_is_density_std (loc scale shape : ℝ) (hs : 0 < scale) (hc : 0 < shape) :
+    ∫ x in Set.Ioi loc, (x - wb_mean loc scale shape) ^ 2 * wb_pdf loc scale shape x = wb_std scale shape ^ 2 ∧
+      0 < wb_std scale shape :=
+  wb_std_is_density_std' loc scale shape hs hc
+
+/-- The reported skewness is the third standardised central moment of the density. -/
+theorem wb_skew_is_density_skew (loc scale shape : ℝ) (hs : 0 < scale) (hc : 0 < shape) :
+    ∫ x in Set.Ioi loc, ((x - wb_mean loc scale shape) / wb_std scale shape) ^ 3 * wb_pdf loc scale shape x =
+      wb_skew shape :=
+  wb_skew_is_density_skew' loc scale shape hs hc
+
+/-- The reported kurtosis is the fourth standardised central moment of the density (plain, not excess, kurtosis). -/
+theorem wb_kurt_is_density_kurt (loc scale shape : ℝ) (hs : 0 < scale) (hc : 0 < shape) :
+    ∫ x in Set.Ioi loc, ((x - wb_mean loc scale shape) / wb_std scale shape) ^ 4 * wb_pdf loc scale shape x =
+      wb_kurt shape :=
+  wb_kurt_is_density_kurt' loc scale shape hs hc
 
 theorem gu_cdf_strictMono (loc scale : ℝ) (hs : 0 < scale) : StrictMono (fun x => gu_cdf loc scale x) :=
   gu_cdf_strictMono' loc scale hs
